@@ -591,6 +591,9 @@ func (fr *frame) applyContract(fc *FuncContract, display string, names []string,
 		}
 		nh := c.newHeapConst(k, "_call", st.alloc)
 		st.heaps[k] = nh
+		if !hasMod(mods, k) && !strings.HasPrefix(k, "map!") {
+			c.heapPrev[nh] = heapPrevInfo{prev: old, preAlloc: preAlloc, reach: fr.curReach}
+		}
 		if src, ok := c.oldSame[old]; (ok || old == c.heap(fr.entry, k)) && !hasMod(mods, k) {
 			// the callee leaves pre-existing objects alone and so did everything before it
 			_ = src
